@@ -129,3 +129,17 @@ Theorem C14_mem_sound : forall A v, af_wf A -> (match v with FFin x => rf_wf x |
   mem A v = true -> gamma A v.
 Proof. exact mem_sound. Qed.
 Print Assumptions C14_mem_sound.
+
+(* ---- the repaired variants (fixes/C14-*.diff; the correspondence accepts the code as it
+   stands or these) are sound at full strength *)
+Theorem C14_neg_fx_sound : forall A x, af_wf A -> gamma A x -> gamma (af_neg_fx A) (fl_neg x).
+Proof. exact neg_fx_sound. Qed.
+Print Assumptions C14_neg_fx_sound.
+
+Theorem C14_abs_fx_sound : forall A x, af_wf A -> gamma A x -> gamma (af_abs_fx A) (fl_abs x).
+Proof. exact abs_fx_sound. Qed.
+Print Assumptions C14_abs_fx_sound.
+
+Theorem C14_le_fx_sound : forall A B v, af_wf A -> af_wf B -> af_le_fx A B = true -> gamma A v -> gamma B v.
+Proof. exact le_fx_sound. Qed.
+Print Assumptions C14_le_fx_sound.
